@@ -129,8 +129,20 @@ func newSut(root, sentinel string, capEv uint, out *bufio.Writer) (*sut, error) 
 	}
 	unix.SetNonblock(fds[1], false)
 	unix.SetsockoptInt(fds[1], unix.SOL_SOCKET, unix.SO_SNDBUF, 1<<20)
-	w, rfd, err := fsnotify.VerifNewPipedWatcher(capEv, fds[0])
+	// EMFILE here is the per-user limit on inotify instances, shared with every other process of this user: this
+	// process holds one instance at a time, so wait for the environment rather than report a failure of the library
+	var w *fsnotify.Watcher
+	var rfd int
+	for deadline := time.Now().Add(120 * time.Second); ; {
+		w, rfd, err = fsnotify.VerifNewPipedWatcher(capEv, fds[0])
+		if err == nil || !(errors.Is(err, unix.EMFILE) || errors.Is(err, unix.ENFILE)) || time.Now().After(deadline) {
+			break
+		}
+		time.Sleep(250 * time.Millisecond)
+	}
 	if err != nil {
+		unix.Close(fds[0])
+		unix.Close(fds[1])
 		return nil, err
 	}
 	s := &sut{w: w, realFd: rfd, sock: fds[1], outs: make(chan output, 1<<16), done: make(chan struct{}),
@@ -411,12 +423,13 @@ loop:
 // ------------------------------------------------------------------ script steps
 
 // A script line is one of
-//   fs <op> <args…>           paths relative to the root (which is also the cwd)
-//   add <arg> <ops> <nofollow>   arg may contain $R (the absolute root)
-//   remove <arg>
-//   list
-//   proc <parts> [inject specs…]   parts over {R,I}; "A" = all pending (as R…)
-//   inject spec:  wd|mask|cookie|namehex|pad     wd may be "S" (sentinel) or a number or "L<k>" (k-th live wd)
+//
+//	fs <op> <args…>           paths relative to the root (which is also the cwd)
+//	add <arg> <ops> <nofollow>   arg may contain $R (the absolute root)
+//	remove <arg>
+//	list
+//	proc <parts> [inject specs…]   parts over {R,I}; "A" = all pending (as R…)
+//	inject spec:  wd|mask|cookie|namehex|pad     wd may be "S" (sentinel) or a number or "L<k>" (k-th live wd)
 type step struct{ f []string }
 
 func (s *sut) sub(arg string) string { return strings.ReplaceAll(arg, "$R", s.root) }
